@@ -10,7 +10,7 @@ ID = 'C13'
 LEVEL = 'exploration'
 RULE = ('documents = every sequence of <= n headings over the class levels (chapter..subsubsection, arbitrary level jumps), each '
         'unit with a unique body marker (plus text before the first heading), variants {plain, footnote + label + colliding '
-        'titles with forbidden characters, identical twin units, heading-only last / first unit}; plus section + every sequence over '
+        'titles with forbidden characters, identical twin units, heading-only last / first unit, a label spelling a numbered name already given / still to come}; also rendered after toXML() and as the second document of one renderer object; plus section + every sequence over '
         'subsubsection..subsubparagraph and the full 7-level chain; x split-level -10..6 x filename templates x bad-chars (x substitute: hyphen, empty, two underscores) x renderer/theme. '
         'Oracle: a unit owns a file iff its level <= split level (one file for a single-name template); body markers are '
         'partitioned over the files exactly as ownership predicts, each exactly once, in document order, footnote text after '
@@ -66,7 +66,7 @@ def document(cls, units, variant):
             # a heading-only unit: directly followed by the end of the document / the next heading
             body.append('\\%s{%s}\n' % (u, marker('t', i)))
             continue
-        if variant in ('plain', 'twins', 'bare', 'bare0'):
+        if variant in ('plain', 'twins', 'bare', 'bare0', 'numlast', 'numfirst'):
             title = marker('t', i)
         else:
             title = 'Same: title/x'           # colliding titles with forbidden characters
@@ -74,6 +74,12 @@ def document(cls, units, variant):
         if variant == 'rich' and i == len(units) - 1:
             # the label of a file-producing unit spells the static name of the default template
             s += '\\label{%s}' % ('index' if len(units) >= 2 else 'lb:x%d' % i)
+        # a label that spells a numbered name of the default template: the one an earlier unlabelled unit already got
+        # (numlast) / the one a later unlabelled unit would get (numfirst)
+        if variant == 'numlast' and i == len(units) - 1 and len(units) >= 2:
+            s += '\\label{sect0001}'
+        if variant == 'numfirst' and i == 0 and len(units) >= 2:
+            s += '\\label{sect0002}'
         s += ' ' + marker('b', i + 1)
         if variant == 'rich' and i == 0:
             s += '\\footnote{%s}' % marker('f', 0)
@@ -110,7 +116,11 @@ def judge(case, second=False):
         cfg[('files', 'bad-chars')] = bad
     if case.get('sub') is not None:
         cfg[('files', 'bad-chars-sub')] = case['sub']
-    out = render.render(src, rname, cfg)
+    pre = (lambda doc: doc.toXML()) if case.get('prexml') else None
+    if case.get('reuse'):
+        out = render_second(case, rname, cfg, src)
+    else:
+        out = render.render(src, rname, cfg, pre_render=pre)
     single = tname in SINGLE
     own = owners(units, split, single)
     nfiles_expected = len(set(own))
@@ -190,20 +200,88 @@ def judge(case, second=False):
     return 'ok', names, None, src
 
 
+def render_second(case, rname, cfg, src):
+    """one renderer object renders another document first (three labelled sections, into a directory of its own) and
+    then this one: -> the files found in this document's directory"""
+    import os, shutil, tempfile, importlib
+    from plasTeX.TeX import TeX
+    from plasTeX.DOM import Node
+    other = ('\\documentclass{article}\\begin{document}oqaz \\section{Oa}\\label{oa} oqbz \\section{Ob} oqcz '
+             '\\section{Oc} oqdz \\subsection{Od} oqez\\footnote{oqfz}\\end{document}')
+    out = {'files': {}, 'error': None}
+    cwd = os.getcwd()
+    base = tempfile.mkdtemp(prefix='vp-c13-')
+    try:
+        with core.time_limit(120):
+            R = importlib.import_module(render.RENDERERS[rname][0]).Renderer()
+            for sub, text in (('one', other), ('two', src)):
+                d = os.path.join(base, sub)
+                os.makedirs(d)
+                os.chdir(d)
+                state.reset()
+                tex = TeX()
+                doc = tex.ownerDocument
+                doc.context.warnOnUnrecognized = False
+                c = doc.config
+                c['images']['imager'] = 'none'
+                c['images']['vector-imager'] = 'none'
+                c['general']['renderer'] = rname
+                c['general']['copy-theme-extras'] = False
+                doc.userdata['jobname'] = 'doc'
+                doc.userdata['working-dir'] = d
+                for (sec, key), val in cfg.items():
+                    c[sec][key] = val
+                tex.jobname = 'doc'
+                tex.input(text)
+                tex.parse()
+                R.render(doc)
+            for root, dirs, files in os.walk(os.path.join(base, 'two')):
+                for f in files:
+                    if f.endswith('.html'):
+                        pth = os.path.join(root, f)
+                        with open(pth, 'rb') as fh:
+                            out['files'][os.path.relpath(pth, os.path.join(base, 'two'))] = fh.read().decode('utf-8', 'replace')
+    except core.Timeout:
+        out['error'] = 'timeout'
+    except Exception as e:
+        out['error'] = 'raises %s: %s' % (type(e).__name__, str(e)[:200])
+    finally:
+        try:
+            if hasattr(Node, 'renderer'):
+                from plasTeX.Renderers import unmix, Renderable
+                del Node.renderer
+                unmix(Node, Renderable)
+        except Exception:
+            pass
+        os.chdir(cwd)
+        shutil.rmtree(base, ignore_errors=True)
+    return out
+
+
 def run_block(block):
     cls, units, variant, tname, bad, theme, splits, twice = block
     sub = None
     if isinstance(bad, tuple):
         bad, sub = bad
     rep = core.Report()
+    flag = None
+    if '+' in variant:
+        variant, flag = variant.split('+')
     for split in splits:
         case = {'cls': cls, 'units': list(units), 'variant': variant, 'split': split, 'template': tname, 'bad': bad,
                 'theme': theme}
         if sub is not None:
             case['sub'] = sub
+        if flag:
+            case[flag] = True
         v, names, info, src = judge(case)
+        if flag == 'prexml' and v == 'ok':
+            # serializing the tree before rendering (what --xml does) must not change any file name
+            v0, names0, info0, src0 = judge({k: x for k, x in case.items() if k != 'prexml'})
+            if v0 == 'ok' and names0 != names:
+                v, info = 'violation', 'file names after toXML() %s differ from the names without it %s' % (names, names0)
         own = owners(units, split, tname in SINGLE)
-        rep.case(key=(cls, units, variant, split, tname, bad, sub, theme), nontrivial=len(set(own)) >= 2,
+        rep.case(key=(cls, units, variant, flag, split, tname, bad, sub, theme), nontrivial=len(set(own)) >= 2,
                  outcome=(tuple(names) if isinstance(names, list) else repr(names), info))
         rep.count('theme_' + theme)
         if v != 'ok':
@@ -279,6 +357,15 @@ def extra_blocks(n):
     for units in deep:
         if units:
             blocks.append(('article', ('section',) + units, 'plain', 'default', None, 'XHTML', splits, False))
+    for units in shapes('book', 2 if n <= 2 else 3):
+        if len(units) >= 2:
+            blocks.append(('book', units, 'numlast', 'default', None, 'XHTML', [0, 1, 2, 3], False))
+            blocks.append(('book', units, 'numfirst', 'default', None, 'XHTML', [0, 1, 2, 3], False))
+        if 1 <= len(units) <= 2:
+            blocks.append(('book', units, 'plain+prexml', 'default', None, 'HTML5', [0, 1, 2], False))
+            blocks.append(('book', units, 'rich+prexml', 'idtitle', None, 'XHTML', [1, 2], False))
+            blocks.append(('book', units, 'plain+reuse', 'default', None, 'XHTML', [0, 1, 2], False))
+            blocks.append(('book', units, 'rich+reuse', 'idtitle', None, 'HTML5', [1], False))
     chain = ('chapter', 'section', 'subsection', 'subsubsection', 'paragraph', 'subparagraph', 'subsubparagraph')
     for theme in THEMES:
         blocks.append(('book', chain, 'plain', 'default', None, theme, splits, False))
